@@ -16,7 +16,7 @@ except ImportError:  # pragma: no cover
     import tomli as tomllib
 
 ROOT = os.path.dirname(os.path.dirname(os.path.abspath(__file__)))
-KANI_DIR = os.path.join(ROOT, 'kani')
+KANI_DIR = os.environ.get('VERIF_KANI_DIR', os.path.join(ROOT, 'kani'))
 VERUS_DIR = os.path.join(ROOT, 'verus')
 
 
@@ -93,7 +93,7 @@ def all_units():
 def select(prop, tier):
     res = []
     for u in all_units():
-        if prop not in u['props']: continue
+        if prop != 'ANY' and prop not in u['props']: continue
         if tier == 'quick' and u['tier'] != 'quick': continue
         res.append(u)
     return res
